@@ -489,6 +489,75 @@ def opaque_pairs(ctx: Ctx) -> None:
     ctx.traces_validated += total
 
 
+def features_on_every_derivative(ctx: Ctx) -> None:
+    """Every registered feature on every derivative class - including the ones without a strike (forward start with a start date
+    after time zero, variance swap): WHEREVER the pair is available (the feature can be evaluated), column t of the feature
+    depends on prices up to t only, in the all-steps and in the single-step form.  Pairs that are not available raise; they are
+    counted, not judged - a change that makes a pair available makes it subject to the property."""
+    from pfhedge.features import get_feature, list_feature_names
+    from pfhedge.instruments import (AmericanBinaryOption, BrownianStock, EuropeanBinaryOption, EuropeanForwardStartOption,
+                                     EuropeanOption, HestonStock, LookbackOption, VarianceSwap)
+    seen = set()
+    pairs = []
+    for r in ctx._pair_recs:
+        k = json.dumps([r["mA"], r["mB"], r["cut"]], sort_keys=True)
+        if k not in seen and len(r["mA"]["spot"]) >= 3:
+            seen.add(k)
+            pairs.append(r)
+    byT: Dict[int, List[Dict[str, Any]]] = defaultdict(list)
+    for r in pairs:
+        byT[len(r["mA"]["spot"])].append(r)
+    dtype = torch.float64
+    # ("empty" is uninitialised memory by definition; prev_hedge needs a hedger and is the subject of the Hedge.tla replay)
+    names = [n for n in list_feature_names() if n not in ("prev_hedge", "empty")] + ["barrier_up_0.55", "barrier_dn_0.45", "log_spot", "underlier_log_spot"]
+    available, unavailable = 0, 0
+    for T, ps in byT.items():
+        cut = torch.tensor([r["cut"] for r in ps])
+
+        def market(side, dname):
+            spot = torch.tensor([p[side]["spot"] for p in ps], dtype=dtype) * 0.5
+            var = torch.tensor([p[side]["var"] for p in ps], dtype=dtype) * 0.04
+            ul = HestonStock(dt=DT, dtype=dtype)
+            ul.register_buffer("spot", spot)
+            ul.register_buffer("variance", var)
+            M = (T - 1) * DT
+            d = {"EuropeanOption": lambda: EuropeanOption(ul, strike=1.0, maturity=M), "LookbackOption": lambda: LookbackOption(ul, strike=1.0, maturity=M),
+                 "AmericanBinaryOption": lambda: AmericanBinaryOption(ul, strike=1.0, maturity=M), "EuropeanBinaryOption": lambda: EuropeanBinaryOption(ul, strike=1.0, maturity=M),
+                 "EuropeanForwardStartOption": lambda: EuropeanForwardStartOption(ul, strike=1.0, maturity=M, start=(T - 2) * DT),
+                 "VarianceSwap": lambda: VarianceSwap(ul, strike=0.04, maturity=M)}[dname]()
+            d.list(lambda dd: 3 * dd.ul().spot)
+            return d
+        for dname in ("EuropeanOption", "LookbackOption", "AmericanBinaryOption", "EuropeanBinaryOption", "EuropeanForwardStartOption", "VarianceSwap"):
+            for f in names:
+                try:
+                    from lib.doubles import make_feature
+                    fa = get_feature(make_feature(f, 1, dtype)).of(market("mA", dname))
+                    fb = get_feature(make_feature(f, 1, dtype)).of(market("mB", dname))
+                    a, b = fa.get(None), fb.get(None)
+                    a1 = [fa.get(i) for i in range(T)]
+                    b1 = [fb.get(i) for i in range(T)]
+                except Exception:
+                    unavailable += 1
+                    continue
+                available += 1
+                ctx.count(("feature-on", dname, f, T), n=len(ps))
+                Tn = a.size(1)
+                mask = (torch.arange(Tn)[None, :] <= cut[:, None])[:, :, None].expand_as(a)
+                both_nan = a.isnan() & b.isnan()
+                diff = ((a != b) & ~both_nan & mask).any(dim=(1, 2))
+                one = torch.cat(a1, dim=1) if a1[0].dim() == 3 else None
+                oneb = torch.cat(b1, dim=1) if b1[0].dim() == 3 else None
+                if one is not None and one.shape == a.shape:
+                    diff = diff | ((one != oneb) & ~(one.isnan() & oneb.isnan()) & mask).any(dim=(1, 2))
+                if bool(diff.any()):
+                    i = int(diff.nonzero()[0])
+                    ctx.violation(f"feature-on:{dname}:{f}:anticipates", f"feature {f} of a {dname}: changing prices after step {ps[i]['cut']} changed the feature at or before that step",
+                                  {"mA": ps[i]["mA"], "mB": ps[i]["mB"], "cut": ps[i]["cut"], "featureA": a[i].flatten().tolist(), "featureB": b[i].flatten().tolist()})
+    if available < 40:
+        raise MachineryError(f"features_on_every_derivative: only {available} (derivative, feature) pairs could be evaluated")
+    ctx.sections["feature_derivative_pairs"] = {"available": available, "not_available": unavailable}
+
+
 def c02_selftest(ctx: Ctx) -> None:
     """Binding demonstration: a feature that peeks at the whole-path maximum must be flagged by the pair replay."""
     probe = Ctx.__new__(Ctx)
